@@ -174,6 +174,39 @@ class A(Adapter):
             return "no_item_fits"
         return None
 
+    # ---- reach probes ---------------------------------------------------------------------------
+    def events(self, ps, action, s, ts, env, cfg):
+        w = np.asarray(s.weights).astype(np.float64)
+        rem = float(s.remaining_budget)
+        packed = np.asarray(s.packed_items).astype(bool)
+        if ps is None:
+            return ["reset_all_items_fit_together"] if float(w.sum()) <= rem else ["reset_items_exceed_budget"]
+        a = int(action)
+        p_packed = np.asarray(ps.packed_items).astype(bool)
+        p_rem = float(ps.remaining_budget)
+        if not self.legal(ps, env)[a]:
+            return ["ended_invalid_action", "invalid_already_packed" if p_packed[a] else "invalid_too_heavy"]
+        ev = ["item_packed"]
+        if float(np.asarray(ps.weights)[a]) == p_rem:
+            ev.append("weight_equals_remaining_budget")
+        if rem == 0.0:
+            ev.append("budget_exactly_exhausted")
+        if rem < 0.0:
+            ev.append("remaining_budget_below_zero")
+        open_ = ~packed
+        if (open_ & (w > rem)).any():
+            ev.append("unpacked_item_no_longer_fits")
+        tol = 1e-5 * max(1.0, abs(rem)) + 1e-6
+        if (open_ & (np.abs(w - rem) < tol)).any():
+            ev.append("item_within_rounding_of_remaining_budget")
+        if not open_.any():
+            ev.append("ended_all_items_packed")
+        elif not (open_ & (w <= rem)).any():
+            ev.append("ended_no_item_fits")
+            if int(packed.sum()) == 1:
+                ev.append("ended_after_one_item")
+        return ev
+
     # ---- C12 -------------------------------------------------------------------------------------
     def observe(self, s, obs, env, cfg):
         for f in ("weights", "values", "packed_items"):
